@@ -18,6 +18,9 @@ def run(rep):
     s3(rep, w)
     s4(rep, w)
     s5(rep, w)
+    s6(rep, w)
+    import c08
+    c08.x9(rep, w)    # a global name is looked up in the module of the running frame: the cached module follows every frame change
 
 
 def s1(rep, w):
@@ -319,3 +322,35 @@ def s5(rep, w):
                     want |= {('slot_base',)} if name == 'frames.pop' else height_identity(f, org, bi, name.replace('yarel::vm::Vm::pop', STACK + 'pop'))
             r.check(bool(want & got), key + ' / closes exactly the dropped region', 'upvalues are closed from %s but the stack is only lowered to %s: variables below the new '
                     'height that stay live are closed too' % (sorted(map(str, got))[:3], sorted(map(str, want))[:3]), f.loc(f.blocks[cb]['t'].get('sp')))
+
+
+def s6(rep, w):
+    """S1 for frames: a call frame is removed only after the open upvalues that point into its slots were closed -- also when the
+    slots themselves are not cut off the stack afterwards (the last frame of a finishing fiber: the fiber's stack dies with the
+    fiber object, while a closure that escaped from the body lives on)"""
+    c = w.yarel
+    r = rep.rule('S6', 'every removal of call frames is dominated by close_upvalues in the same function', floor=3)
+    n = 0
+    for f in sorted(c.fns.values(), key=lambda x: x.path):
+        if not f.path.startswith('yarel::vm::Vm::'):
+            continue
+        org = None
+        ev = []
+        for bi, t in f.calls():
+            nm = strip_generics(callee_name(t) or '')
+            if nm in ('std::vec::Vec::truncate', 'std::vec::Vec::pop', 'std::vec::Vec::clear', 'std::vec::Vec::remove') and t['args']:
+                if org is None:
+                    org = origins(f)
+                if 'frames' in operand_fields(f, org, t['args'][0]):
+                    ev.append((bi, nm.rsplit('::', 1)[-1]))
+        if not ev:
+            continue
+        dom = f.dominators()
+        closers = {bi for bi, t in f.calls() if callee_name(t) in CLOSERS}
+        for bi, what in ev:
+            n += 1
+            r.check(any(cb in dom.get(bi, ()) for cb in closers), '%s / frames.%s' % (f.path, what),
+                    'call frames are removed on a path that has not closed the upvalues pointing into them: a closure that captured a variable of the removed frame keeps reading the '
+                    'dead slot (for the last frame of a fiber: memory of a stack that is freed with the fiber)', f.loc(f.blocks[bi]['t'].get('sp')))
+    if n < 3:
+        raise Broken('C06', 'floor', 'frame removals found: %d' % n)
